@@ -133,3 +133,9 @@ package trust
 //@   ensures result2 == nil ==> result0[0].TRC.Validity.NotBefore.ext <= time.lastNow && old(time.lastNow) <= result0[0].TRC.Validity.NotAfter.ext
 //@   ensures result2 == nil && len(result0) == 2 ==> result0[0].TRC.ID.Base != result0[0].TRC.ID.Serial && !cppki.zeroSigned(result0[1])
 //@   ensures result2 == nil && len(result0) == 2 ==> old(time.lastNow) <= result0[0].TRC.Validity.NotBefore.ext + int64(result0[0].TRC.GracePeriod)
+
+//@ # ---- signer selection (used by the beacon extender, C23): the choice among candidates is not interpreted
+//@ func LastExpiring
+//@   trusted
+//@   modifies nothing
+//@   ensures result1 == nil ==> result0 != nil
